@@ -116,16 +116,15 @@ func (s *caseState) runOps(ops []*ClientOp) {
 		wg.Add(1)
 		go func(op *ClientOp) {
 			defer wg.Done()
-			if n := s.c.nodes[op.Node]; n.isUp() {
-				if lc, err := n.director.GetLeader(shardID); err == nil {
-					op.NodeTerm = lc.Term()
-				} else {
-					op.NodeTerm = -2
-				}
-			}
-			if op.Write != nil {
+			// the term the node is known to have accepted (highest NewTerm it answered): taken from the harness's own
+			// record, not from the controller, whose lock may be held for the whole quorum wait of a BecomeLeader
+			op.NodeTerm = s.c.nodes[op.Node].answeredTerm()
+			switch {
+			case op.Write != nil:
 				s.c.doWrite(op, 1500*time.Millisecond)
-			} else {
+			case op.List != nil:
+				s.c.doList(op, 1500*time.Millisecond)
+			default:
 				s.c.doRead(op, 1500*time.Millisecond)
 			}
 		}(op)
@@ -213,7 +212,7 @@ func runProgram(t *rapid.T, focus string) {
 	okWriteSeen := false
 	for i := 0; i < nSteps; i++ {
 		switch rapid.SampledFrom([]string{"write", "write", "write", "burst", "read", "read", "isolate", "heal", "cut", "restart", "stop", "start",
-			"unavailable", "unavailable", "coordRestart", "holdNewTerm", "release", "swap", "settle", "settle", "lateDelivery"}).Draw(t, "step") {
+			"unavailable", "unavailable", "coordRestart", "holdNewTerm", "release", "swap", "settle", "settle", "lateDelivery", "electionWithReads", "electionWithReads"}).Draw(t, "step") {
 		case "lateDelivery":
 			nSent := c.wire.sentCount()
 			if nSent == 0 {
@@ -245,7 +244,13 @@ func runProgram(t *rapid.T, focus string) {
 			s.labels["concurrent_ops"] = true
 		case "read":
 			op := s.newOp(s.believedLeader())
-			op.Read = &proto.GetRequest{Key: s.keys[rapid.IntRange(0, len(s.keys)-1).Draw(t, "rkey")], IncludeValue: true}
+			if rapid.IntRange(0, 2).Draw(t, "listInstead") == 0 {
+				// the user keys only: k1..k3 (the marker records m/... sort elsewhere)
+				op.List = &proto.ListRequest{Shard: &shardIDv, StartInclusive: "k0", EndExclusive: "k9"}
+				s.labels["list_read"] = true
+			} else {
+				op.Read = &proto.GetRequest{Key: s.keys[rapid.IntRange(0, len(s.keys)-1).Draw(t, "rkey")], IncludeValue: true}
+			}
 			s.runOps([]*ClientOp{op})
 		case "isolate":
 			n := c.order[rapid.IntRange(0, len(c.order)-1).Draw(t, "node")]
@@ -325,6 +330,81 @@ func runProgram(t *rapid.T, focus string) {
 				s.labels["election_triggered"] = true
 				time.Sleep(time.Duration(rapid.IntRange(0, 30).Draw(t, "afterUnavailMs")) * time.Millisecond)
 			}
+		case "electionWithReads":
+			// an acknowledged write that changes which keys exist, then the leader is cut off and declared unavailable
+			// while the remaining members cannot reach each other (the new leader's BecomeLeader waits for its quorum):
+			// during the election every member is asked to list and read. A member must refuse until it really leads.
+			sc := c.controller()
+			if sc == nil {
+				continue
+			}
+			l := sc.Leader()
+			if l == nil {
+				continue
+			}
+			// the write flips the presence of one user key, so that a list from a database that has not applied it yet
+			// differs from every admissible answer
+			w := s.newOp(l.Internal)
+			k := s.keys[rapid.IntRange(0, len(s.keys)-1).Draw(t, "flipKey")]
+			probe := s.newOp(l.Internal)
+			probe.Read = &proto.GetRequest{Key: k, IncludeValue: true}
+			s.runOps([]*ClientOp{probe})
+			if probe.Outcome == OutcomeOK && probe.Get != nil && probe.Get.Status == proto.Status_OK {
+				w.Write = &proto.WriteRequest{Deletes: []*proto.DeleteRequest{{Key: k}}}
+			} else {
+				w.Write = &proto.WriteRequest{Puts: []*proto.PutRequest{{Key: k, Value: []byte(w.Tag)}}}
+			}
+			w.Write.Puts = append(w.Write.Puts, &proto.PutRequest{Key: "m/" + w.Tag, Value: []byte(w.Tag)})
+			s.runOps([]*ClientOp{w})
+			okWriteSeen = okWriteSeen || w.Outcome == OutcomeOK
+			ens := ensemble()
+			s.logf("electionWithReads(leader %s)", l.Internal)
+			for _, a := range ens {
+				for _, b := range ens {
+					if a != b {
+						c.wire.setLink(a, b, false)
+					}
+				}
+			}
+			c.wire.setLink(coordName, l.Internal, false)
+			c.wire.setLink(l.Internal, coordName, false)
+			sc.NodeBecameUnavailable(c.nodes[l.Internal].server())
+			s.labels["election_triggered"] = true
+			s.labels["reads_during_election"] = true
+			rounds := rapid.IntRange(3, 10).Draw(t, "readRounds")
+			for r := 0; r < rounds; r++ {
+				var ops []*ClientOp
+				for _, n := range ens {
+					if n == l.Internal {
+						continue
+					}
+					op := s.newOp(n)
+					if r%2 == 0 {
+						op.List = &proto.ListRequest{Shard: &shardIDv, StartInclusive: "k0", EndExclusive: "k9"}
+					} else {
+						op.Read = &proto.GetRequest{Key: s.keys[rapid.IntRange(0, len(s.keys)-1).Draw(t, "rkey")], IncludeValue: true}
+					}
+					ops = append(ops, op)
+				}
+				s.runOps(ops)
+				for _, op := range ops {
+					if op.Outcome == OutcomeOK {
+						s.labels["read_answered_during_election"] = true
+					}
+				}
+				time.Sleep(time.Duration(rapid.IntRange(5, 60).Draw(t, "betweenReadsMs")) * time.Millisecond)
+				if r == rounds/2 {
+					// let the election complete half way through
+					for _, a := range ens {
+						for _, b := range ens {
+							if a != b && a != l.Internal && b != l.Internal {
+								c.wire.setLink(a, b, true)
+							}
+						}
+					}
+				}
+			}
+			s.labels["partition"] = true
 		case "coordRestart":
 			s.logf("coordinatorRestart")
 			c.stopCoordinator()
@@ -895,6 +975,76 @@ func (s *caseState) checkRealTimeAndReads(events []Event, pos map[string]logPos,
 			s.violation("C02: %s, which matches no prefix of the committed log (uncommitted or rolled-back data)", desc)
 		} else if !match {
 			s.violation("C02: %s, which is not the state after any committed prefix in [%d,%d] (stale-eligible=%v)", desc, lower, upper, staleEligible)
+		}
+	}
+	// lists over the user keys: the set returned must be the set of present keys after some committed prefix within
+	// the same bounds as a get
+	for _, op := range s.ops {
+		if op.List == nil || op.Outcome != OutcomeOK {
+			continue
+		}
+		lower, upper := int64(-1), int64(-1)
+		staleEligible := maxStoredBefore(op.InvSeq) > op.NodeTerm
+		for _, w := range ws {
+			p := pos[w.Tag].offset
+			if !staleEligible && w.Outcome == OutcomeOK && w.RetSeq < op.InvSeq && p > lower {
+				lower = p
+			}
+		}
+		for _, w := range s.ops {
+			if w.Write == nil {
+				continue
+			}
+			if p, ok := pos[w.Tag]; ok && w.InvSeq < op.RetSeq && p.offset > upper {
+				upper = p.offset
+			}
+		}
+		got := map[string]bool{}
+		for _, k := range op.ListKeys {
+			got[k] = true
+		}
+		presentAt := func(p int64) map[string]bool {
+			m := map[string]bool{}
+			for _, k := range s.keys {
+				for _, st := range keyState[k] {
+					if st.pos == p && st.found {
+						m[k] = true
+					}
+				}
+			}
+			return m
+		}
+		same := func(a, b map[string]bool) bool {
+			if len(a) != len(b) {
+				return false
+			}
+			for k := range a {
+				if !b[k] {
+					return false
+				}
+			}
+			return true
+		}
+		match, anyPrefix := false, false
+		if len(got) == 0 {
+			anyPrefix = true
+			if lower <= -1 {
+				match = true
+			}
+		}
+		for _, e := range llog {
+			if same(got, presentAt(e.Offset)) {
+				anyPrefix = true
+				if e.Offset >= lower && e.Offset <= upper {
+					match = true
+				}
+			}
+		}
+		desc := fmt.Sprintf("list %s at %s (node term %d) returned %v", op.Tag, op.Node, op.NodeTerm, op.ListKeys)
+		if !anyPrefix {
+			s.violation("C02: %s, which is the key set after no prefix of the committed log", desc)
+		} else if !match {
+			s.violation("C02: %s, which is not the key set after any committed prefix in [%d,%d] (stale-eligible=%v)", desc, lower, upper, staleEligible)
 		}
 	}
 }
